@@ -182,6 +182,7 @@ func (w *world) judgeReserve(p *peerSt, cs *connSt, fault string, out hopOutcome
 		}
 		w.checkVoucher(out.msg, p, at)
 		if wasMay {
+			p.refreshes++
 			w.label("refresh-granted")
 			if p.rs.ip != t.ip {
 				w.label("refresh-granted-other-ip")
@@ -368,6 +369,10 @@ func (w *world) newCircuit(src *peerSt, cs *connSt, dst *peerSt, hop *relayhost.
 		c.deadline = at.Add(w.cfg.Dur)
 	}
 	w.circuits = append(w.circuits, c)
+	src.circs++
+	if dst != src {
+		dst.circs++
+	}
 	return c
 }
 
@@ -675,6 +680,14 @@ func (w *world) advance(d time.Duration) {
 	}
 	w.trace = append(w.trace, fmt.Sprintf("ADVANCE %v", d))
 	w.expireCircuits(now)
+	// generator heuristic: a reservation was collected while circuits of its holder go on; the
+	// next steps let that peer reserve again and direct further CONNECTs at it (see step)
+	for _, p := range w.peers {
+		if p.rs.may && w.mayLive(p, before) && !w.mayLive(p, now) && w.openCount(p, false) > 0 && p.usableConn() != nil {
+			w.label("circuit-outlives-collected-reservation")
+			w.regrant, w.regrantN = p, 3
+		}
+	}
 }
 
 func (w *world) disconnect(p *peerSt, cs *connSt) {
@@ -706,6 +719,8 @@ func (w *world) disconnect(p *peerSt, cs *connSt) {
 		}
 		p.rs = rsv{}
 		p.tagExcuse = false
+		// the connection manager forgets a peer without connections, foreign tags included
+		p.base = tagSnap{tags: map[string]int{}}
 	case p.usableConn() == nil:
 		// Only limited connections (relayed through another relay) remain: the peer is not
 		// Connected any more (Connectedness is Limited), it has disconnected in the statement's
@@ -751,27 +766,7 @@ func (w *world) audit(where string) {
 	now := time.Now()
 	w.expireCircuits(now)
 	nOpen := len(w.circuits)
-	for _, p := range w.peers {
-		tags := map[string]int{}
-		if ti := w.h.CM.GetTagInfo(p.id); ti != nil {
-			tags = ti.Tags
-		}
-		if _, ok := tags[tagHop]; ok && w.openCount(p, false) == 0 {
-			w.failf("%s: peer p%d still carries the %q tag without an open circuit", where, p.idx, tagHop)
-		}
-		if _, ok := tags[tagRsvp]; ok && !w.mayLive(p, now) {
-			if w.known2 && p.tagExcuse {
-				w.excluded = true
-			} else {
-				w.failf("%s: peer p%d carries the %q tag but holds no reservation (model %+v)", where, p.idx, tagRsvp, p.rs)
-			}
-		}
-		for tg := range tags {
-			if tg != tagHop && tg != tagRsvp {
-				w.failf("%s: unexpected tag %q on p%d", where, tg, p.idx)
-			}
-		}
-	}
+	w.auditTags(where, now)
 	svc, sys := w.svcStat(), w.sysStat()
 	if svc.NumStreamsInbound-w.baseSvc.NumStreamsInbound != nOpen || svc.NumStreamsOutbound-w.baseSvc.NumStreamsOutbound != nOpen {
 		w.failf("%s: relay service scope holds %d inbound / %d outbound streams with %d open circuits (baseline %d/%d)", where,
@@ -800,4 +795,92 @@ func (w *world) audit(where string) {
 	if sys.Memory-w.baseSys.Memory != mem {
 		w.failf("%s: system scope memory %d differs from the service scope's %d", where, sys.Memory-w.baseSys.Memory, mem)
 	}
+}
+
+// auditTags: the connection-manager view of every peer. A peer that (by the model) holds
+// neither a reservation nor a circuit carries exactly the tags it carried before it first asked
+// the relay for anything, and its total value is the previous one as well - however the
+// reservation ended (disconnect of the last direct connection, expiry + collection, relay
+// Close), after any number of refreshes and circuits.
+func (w *world) auditTags(where string, now time.Time) {
+	for _, p := range w.peers {
+		cur := w.tagSnapOf(p)
+		tags := cur.tags
+		if _, ok := tags[tagHop]; ok && w.openCount(p, false) == 0 {
+			w.failf("%s: peer p%d still carries the %q tag without an open circuit", where, p.idx, tagHop)
+		}
+		excused := false
+		if _, ok := tags[tagRsvp]; ok && !w.mayLive(p, now) {
+			if w.known2 && p.tagExcuse {
+				w.excluded = true
+				excused = true
+			} else {
+				w.failf("%s: peer p%d carries the %q tag but holds no reservation (model %+v)", where, p.idx, tagRsvp, p.rs)
+			}
+		}
+		for tg := range tags {
+			if _, was := p.base.tags[tg]; !was && tg != tagHop && tg != tagRsvp {
+				w.failf("%s: unexpected tag %q on p%d", where, tg, p.idx)
+			}
+		}
+		holdsRsvp, holdsCirc := w.mayLive(p, now), w.openCount(p, false) > 0
+		if holdsRsvp || holdsCirc {
+			p.held = true
+			p.heldRsvp = p.heldRsvp || holdsRsvp
+			continue
+		}
+		if !excused && !cur.sameAs(p.base) {
+			w.failf("%s: peer p%d holds neither a reservation nor a circuit, but its connection-manager tags did not return to their previous values: "+
+				"tags %v total value %d, before its first request tags %v total value %d (since then: %d granted refreshes, %d circuits)",
+				where, p.idx, cur.tags, cur.value, p.base.tags, p.base.value, p.refreshes, p.circs)
+		}
+		if p.held && cur.known {
+			// the connection manager still knows the peer (a connection is left), so the
+			// comparison says something
+			w.label("tagvalue:restored-after-end-conn-kept")
+			if p.heldRsvp {
+				w.label("tagvalue:restored-after-reservation-end-conn-kept")
+				if p.refreshes >= 1 {
+					w.label("tagvalue:restored-after-refreshed-reservation-end-conn-kept")
+				}
+				if p.refreshes >= 2 {
+					w.label("tagvalue:restored-after-2+-refreshes-conn-kept")
+				}
+			}
+			if p.circs >= 1 {
+				w.label("tagvalue:restored-after-circuits-end-conn-kept")
+			}
+			if p.circs >= 2 {
+				w.label("tagvalue:restored-after-repeated-circuits-conn-kept")
+			}
+			if p.base.value != 0 {
+				w.label("tagvalue:restored-to-nonzero-previous-value")
+			}
+		}
+		p.held, p.heldRsvp, p.refreshes, p.circs = false, false, 0, 0
+	}
+}
+
+// closeRelay ends the history: Close ends every reservation that is left (no circuit is open
+// any more), so every peer's tags and total value are the previous ones.
+func (w *world) closeRelay() {
+	now := time.Now()
+	for _, p := range w.peers {
+		if w.mayLive(p, now) {
+			w.label("relay-closed-with-live-reservation")
+			if len(p.openConns()) > 0 && p.refreshes >= 1 {
+				w.label("relay-closed-with-refreshed-reservation")
+			}
+		}
+	}
+	if len(w.circuits) != 0 {
+		return
+	}
+	w.r.Close()
+	synctest.Wait()
+	w.trace = append(w.trace, "RELAY CLOSE")
+	for _, p := range w.peers {
+		p.rs = rsv{}
+	}
+	w.auditTags("after relay Close", time.Now())
 }
